@@ -1,4 +1,6 @@
 import FxVerif.Model.C16
+import FxVerif.Proofs.C16Sem
+import FxVerif.Proofs.C16Store
 /-!
 # C16 — privileged messages take effect only when issued by the governance authority
 
@@ -7,6 +9,7 @@ statement before it, or a new authority-carrying handler appears without one, `a
 -/
 namespace FxVerif.Props.C16
 open FxVerif.Gen.C16 FxVerif.Model.C16
+open FxVerif.Gen (C16Sem.proposalExec C16Sem.helpers C16Sem.impls C16Sem.types C16Sem.services C16Sem.registrations C16Sem.msgInfos C16Sem.updateStoreProg)
 
 /-- obligation over the regenerated table: every handler is guarded, or forwards to a guarded one -/
 theorem all_handlers_guarded : handlers.all (fun h => shapeOk handlers h.shape) = true := by decide
@@ -99,10 +102,373 @@ theorem update_store_writes (gov : List Char) (u : Upd) (s : KV) (hsp : u.spaceO
     updateStore gov gov [u] s = (.ok, kvSet s u.key u.new) := by
   simp [updateStore, applyUpds, hsp, hold]
 
+
+/-! ## semantic layer: the guard EXPRESSIONS, helpers, method promotion and the router dispatch as regenerated terms -/
+
+/-- obligation over the regenerated bodies: every leading guard condition (with the helper it calls, followed one level)
+normalises to exactly one comparison of the request's authority with the keeper's authority -/
+theorem leading_guards_compare_authority :
+    C16Sem.impls.all (fun i => match firstGuard i.body with
+      | some g => (guardCmp C16Sem.helpers g).isSome
+      | none => true) = true := by decide
+
+/-- (a) for every handler in the regenerated table, the leading guard rejects IF AND ONLY IF the request's authority is
+not related to the keeper's authority (`!=`: not the same string; `!strings.EqualFold`: not case-fold-equal;
+`!bytes.Equal` on decoded operands: not the same address bytes) — for every authority string and every environment.  A
+helper that accepts "governance or something else", a comparison with a different account or a different field, a
+comparison hidden in a branch: any of these makes `guardCmp` fail and this theorem stop checking. -/
+theorem guard_rejects_iff (i : Impl) (hi : i ∈ C16Sem.impls) (g : BExpr) (hg : firstGuard i.body = some g) :
+    ∃ c, guardCmp C16Sem.helpers g = some c ∧
+      ∀ (env : Env) (auth : Str), (evalB C16Sem.helpers env auth g = true ↔ relK env.cfg c env.gov auth = false) := by
+  have h := List.all_eq_true.mp leading_guards_compare_authority i hi
+  simp only [hg] at h
+  cases hc : guardCmp C16Sem.helpers g with
+  | none => simp [hc] at h
+  | some c =>
+    refine ⟨c, rfl, fun env auth => ?_⟩
+    rw [guardCmp_sound C16Sem.helpers env auth g c hc]
+    cases relK env.cfg c env.gov auth <;> simp
+
+/-- the shape table and the semantic table are two readings of the same source: every handler of the shape table has an
+implementation (same position, same method, same message) in the semantic table, and the two classifications agree -/
+theorem shape_and_semantic_tables_agree :
+    (handlers.zip C16Sem.impls).all (fun hi =>
+      hi.2.method == hi.1.method && hi.2.msg == hi.1.msg &&
+        (shapeOk handlers hi.1.shape == (protectedAt prog 4 hi.2.recv hi.2.method).isSome)) = true ∧
+    C16Sem.impls.length = handlers.length := by decide
+
+/-- what the three comparison kinds mean -/
+theorem relK_strict_iff (cfg : AddrCfg) (a b : Str) : relK cfg .strict a b = true ↔ a = b := by simp [relK]
+
+theorem relK_fold_iff (cfg : AddrCfg) (a b : Str) : relK cfg .fold a b = true ↔ a.map foldC = b.map foldC := by
+  simp [relK, foldEq]
+
+theorem relK_addr_iff (cfg : AddrCfg) (a b : Str) :
+    relK cfg .addr a b = true ↔ decodeOrEmpty cfg a = decodeOrEmpty cfg b := by simp [relK]
+
+/-- (b) obligation over the regenerated dispatch tables: for every `RegisterMsgServer` call site, every method of the
+registered service whose request carries an authority resolves — from the concrete type that is registered, through Go's
+method promotion over embedded structs — to an implementation for that very message which is protected (guard first, or
+delegation to protected implementations only); and every in-repo Msg service is registered with a resolved type -/
+theorem dispatch_table_ok :
+    C16Sem.registrations.all (registrationOk prog C16Sem.services) = true ∧
+    C16Sem.services.all (serviceRegistered C16Sem.registrations) = true := by decide
+
+/-- (b)+(d) every routed authority-carrying message reaches a guarded implementation: whatever concrete type is
+registered, whichever method is promoted, whatever the rest of any handler does (`W`), for every state and payload — an
+authority that is not related to the keeper's authority is rejected and the state is exactly what it was -/
+theorem routed_unauthorized_rejected {σ : Type} (r : Registration) (hr : r ∈ C16Sem.registrations)
+    (sv : Service) (hsv : sv ∈ C16Sem.services) (hpkg : sv.pkg = r.service)
+    (mm : String × String) (hmm : mm ∈ sv.methods) (hmsg : mm.2 ≠ "") :
+    ∃ (c : CmpK) (impl : Impl), resolve prog r.impl mm.1 = some impl ∧ impl.msg = mm.2 ∧
+      protectedAt prog 4 r.impl mm.1 = some c ∧
+      ∀ (env : Env) (auth : Str) (W : World σ) (payloadOk : Bool) (s : σ), relK env.cfg c env.gov auth = false →
+        routed prog C16Sem.msgInfos env auth W payloadOk r.impl mm.1 mm.2 s = (.err, s) := by
+  have h := List.all_eq_true.mp dispatch_table_ok.1 r hr
+  unfold registrationOk at h
+  have h2 := List.all_eq_true.mp h sv hsv
+  simp only [hpkg, bne_self_eq_false, Bool.false_or] at h2
+  have h3 := List.all_eq_true.mp h2 mm hmm
+  have hne : (mm.2 == "") = false := by simpa using hmsg
+  simp only [hne, Bool.false_or, Bool.and_eq_true] at h3
+  obtain ⟨hres, hprot⟩ := h3
+  cases hr' : resolve prog r.impl mm.1 with
+  | none => simp [hr'] at hres
+  | some impl =>
+    cases hp : protectedAt prog 4 r.impl mm.1 with
+    | none => simp [hp] at hprot
+    | some c =>
+      refine ⟨c, impl, rfl, by simpa [hr'] using hres, rfl, ?_⟩
+      intro env auth W payloadOk s hrel
+      unfold routed routedStage
+      split
+      · rfl
+      · split
+        · rfl
+        · exact protectedAt_sound prog env auth W c hrel 4 r.impl mm.1 s hp
+
+/-- obligation: a handler that compares case-insensitively is only reachable behind a `ValidateBasic` that decodes the
+authority as an account address first -/
+theorem fold_guards_behind_decoding_validate_basic :
+    C16Sem.registrations.all (fun r => C16Sem.services.all fun sv => sv.pkg != r.service ||
+      sv.methods.all fun mm => protectedAt prog 4 r.impl mm.1 != some .fold || vbDecodes C16Sem.msgInfos mm.2) = true := by
+  decide
+
+/-- look-alike encodings: through the router, a privileged message gets past `ValidateBasic` and the guard only if its
+authority is the keeper's authority string itself — or, for the case-insensitively comparing handler, that string in
+upper case (the other valid bech32 spelling of the same address).  Mixed case, `ſ`/`K` (which `strings.EqualFold`
+identifies with `s`/`k`), other prefixes, hex, padding: all rejected with the state unchanged. -/
+theorem routed_only_governance_string {σ : Type} (r : Registration) (hr : r ∈ C16Sem.registrations)
+    (sv : Service) (hsv : sv ∈ C16Sem.services) (hpkg : sv.pkg = r.service)
+    (mm : String × String) (hmm : mm ∈ sv.methods) (hmsg : mm.2 ≠ "")
+    (hkind : protectedAt prog 4 r.impl mm.1 ≠ some .addr)
+    (env : Env) (hgov : lowerAsciiStr env.gov = true) (auth : Str) (W : World σ) (payloadOk : Bool) (s : σ)
+    (h1 : auth ≠ env.gov)
+    (h2 : protectedAt prog 4 r.impl mm.1 = some .strict ∨ auth ≠ env.gov.map upperC) :
+    routed prog C16Sem.msgInfos env auth W payloadOk r.impl mm.1 mm.2 s = (.err, s) := by
+  obtain ⟨c, impl, _, _, hp, hrej⟩ := routed_unauthorized_rejected (σ := σ) r hr sv hsv hpkg mm hmm hmsg
+  cases c with
+  | strict =>
+    apply hrej
+    simp only [relK, beq_eq_false_iff_ne, ne_eq]
+    exact fun h => h1 h.symm
+  | addr => exact absurd hp hkind
+  | fold =>
+    have hvb : vbDecodes C16Sem.msgInfos mm.2 = true := by
+      have h := List.all_eq_true.mp fold_guards_behind_decoding_validate_basic r hr
+      have h' := List.all_eq_true.mp h sv hsv
+      simp only [hpkg, bne_self_eq_false, Bool.false_or] at h'
+      have h'' := List.all_eq_true.mp h' mm hmm
+      simpa [hp] using h''
+    have h2' : auth ≠ env.gov.map upperC := by
+      rcases h2 with h | h
+      · rw [hp] at h; cases h
+      · exact h
+    by_cases hdec : (accAddress env.cfg auth).isSome = true
+    · by_cases hf : foldEq env.gov auth = true
+      · rcases fold_decodable_exact env.cfg env.gov auth hgov hf hdec with h | h
+        · exact absurd h h1
+        · exact absurd h h2'
+      · apply hrej
+        simpa [relK] using hf
+    · unfold routed routedStage
+      have : (accAddress env.cfg auth).isNone = true := by
+        cases hh : accAddress env.cfg auth with
+        | none => rfl
+        | some _ => simp [hh] at hdec
+      simp [hvb, this]
+
+/-- the same in terms of the ACCOUNT: whenever a routed privileged message is not rejected-with-the-state-unchanged, its
+authority decodes (`sdk.AccAddressFromBech32`, modelled in full: character range, single case, separator, charset,
+checksum, 5→8 bit regrouping, prefix, address length) to the very address bytes the keeper's authority string decodes to -/
+theorem routed_accepts_only_governance_account {σ : Type} (r : Registration) (hr : r ∈ C16Sem.registrations)
+    (sv : Service) (hsv : sv ∈ C16Sem.services) (hpkg : sv.pkg = r.service)
+    (mm : String × String) (hmm : mm ∈ sv.methods) (hmsg : mm.2 ≠ "")
+    (hkind : protectedAt prog 4 r.impl mm.1 ≠ some .addr)
+    (env : Env) (hgov : lowerAsciiStr env.gov = true) (auth : Str) (W : World σ) (payloadOk : Bool) (s : σ)
+    (hacc : routed prog C16Sem.msgInfos env auth W payloadOk r.impl mm.1 mm.2 s ≠ (.err, s)) :
+    accAddress env.cfg auth = accAddress env.cfg env.gov := by
+  by_cases h1 : auth = env.gov
+  · rw [h1]
+  · by_cases h2 : auth = env.gov.map upperC
+    · rw [h2]; exact accAddress_upper env.cfg env.gov hgov
+    · exact absurd (routed_only_governance_string r hr sv hsv hpkg mm hmm hmsg hkind env hgov auth W payloadOk s h1
+        (Or.inr h2)) hacc
+
+/-- the guard is not vacuous: with the keeper's authority itself a guarded body runs its rest -/
+theorem gov_authority_passes_guard {σ : Type} (i : Impl) (hi : i ∈ C16Sem.impls) (g : BExpr) (rest : List Stmt)
+    (hb : i.body = .rejectIf g :: rest) (env : Env) (W : World σ) (call : String → String → σ → Res × σ) (s : σ) :
+    execBody C16Sem.helpers env env.gov W i.recv i.method call i.body s =
+      execBody C16Sem.helpers env env.gov W i.recv i.method call rest s := by
+  obtain ⟨c, hc, _⟩ := guard_rejects_iff i hi g (by rw [hb]; rfl)
+  rw [hb]
+  apply guard_passes C16Sem.helpers env env.gov W i.recv i.method call g rest c s hc
+  cases c <;> simp [relK, foldEq]
+
+/-- (d) why the guard has to come first: a body that does work before its guard (an early return, a write) is NOT
+protected — there is a world in which a foreign authority changes the state and gets success -/
+theorem work_before_guard_unprotected :
+    ∃ (W : World Nat) (env : Env) (auth : Str), relK env.cfg .strict env.gov auth = false ∧
+      execBody [] env auth W "T" "m" (fun _ _ s => (.err, s))
+        [.work 0 "if <payload empty> { delete; return ok }", .rejectIf (.ne .keeperAuthority .reqAuthority)] 0 = (.ok, 1) := by
+  refine ⟨⟨fun _ _ _ s => .ret .ok (s + 1), true, 0, fun s => (.err, s)⟩,
+    ⟨⟨[], 0, 0⟩, [1], fun _ => [], fun _ => [], fun _ => [], fun _ => false, fun _ => false, fun _ => none⟩, [2], ?_, ?_⟩
+  · decide
+  · rfl
+
+/-- (d) at message level every rejection — by a guard, by work that fails after writing, by a later check — leaves the
+stores as they were, because the message runs on a branch that is written back only on success -/
+theorem rejected_message_leaves_stores_unchanged (f : Stores → Res × Stores) (S : Stores)
+    (h : (viaCache f S).1 = .err) : (viaCache f S).2 = S := viaCache_err f S h
+
+/-- (d) for EVERY handler kind — guard first, work before the guard, early returns, delegation, an unresolved method,
+whatever the world does — a routed message that ends in an error leaves the state exactly as it was, because the router
+runs it on a branch that is only written back on success -/
+theorem any_handler_rejected_state_unchanged {σ : Type} (P : Program) (infos : List MsgInfo) (env : Env) (auth : Str)
+    (W : World σ) (payloadOk : Bool) (T m msg : String) (s : σ)
+    (h : (onBranch (routed P infos env auth W payloadOk T m msg) s).1 = .err) :
+    (onBranch (routed P infos env auth W payloadOk T m msg) s).2 = s := by
+  unfold onBranch at h ⊢
+  cases hf : routed P infos env auth W payloadOk T m msg s with
+  | mk r s' => cases r <;> simp [hf] at h ⊢
+
+/-! ## (c) the raw store update in full -/
+
+/-- the regenerated loop program (statements of the handler's `range req.UpdateStores` loop in SOURCE ORDER) computes,
+for all entry lists and all stores, sequential compare-and-set: every entry is compared with the value current when it
+is reached (a check-all-then-write-all split, or a write before the compare, makes this theorem stop checking) -/
+theorem update_store_prog_refines_cas (known : List String) (es : List Entry) (S : Stores) :
+    runProg known C16Sem.updateStoreProg es S = casAll known es S := by
+  have hp : ∃ v, C16Sem.updateStoreProg = [[.lookupSpace, .get v, .failUnlessEq v "OldValue", .set "Value"]] :=
+    ⟨_, rfl⟩
+  obtain ⟨v, hv⟩ := hp
+  rw [hv, runProg_single, runLoop_canonical]
+
+/-- the handler the loop belongs to starts with the strict authority guard (so `updateStoreHandler`'s `auth ≠ gov` IS the
+regenerated guard) and then runs the loop as its first piece of work -/
+theorem update_store_guard_strict :
+    C16Sem.impls.any (fun i => i.msg == "x/gov/types.MsgUpdateStore" &&
+      (match firstGuard i.body with | some g => guardCmp C16Sem.helpers g == some .strict | none => false) &&
+      (match i.body with | .rejectIf _ :: .nop _ :: .work _ _ :: _ => true | .rejectIf _ :: .work _ _ :: _ => true | _ => false)) = true := by
+  decide
+
+/-- obligation: the raw-store-update handler is `guard; no-op; <loop>; <return ok>` -/
+theorem update_store_body_shape :
+    C16Sem.impls.any (fun i => i.msg == "x/gov/types.MsgUpdateStore" &&
+      (match i.body with
+        | [.rejectIf g, .nop _, .work a _, .work b _] => guardCmp C16Sem.helpers g == some .strict && a != b
+        | _ => false)) = true := by decide
+
+/-- the handler model of the semantic layer (`execBody` over the regenerated statements), with the loop statement
+interpreted by the regenerated loop program and the last statement returning success, IS `updateStoreHandler` -/
+theorem update_store_exec_is_handler (i : Impl) (g : BExpr) (n sa sb : String) (a b : Nat)
+    (hb : i.body = [.rejectIf g, .nop n, .work a sa, .work b sb]) (hab : a ≠ b)
+    (hg : guardCmp C16Sem.helpers g = some .strict)
+    (known : List String) (es : List Entry) (env : Env) (auth : Str) (W : World Stores)
+    (hW : ∀ T m id S, W.work T m id S =
+      if id = a then (match runProg known C16Sem.updateStoreProg es S with
+        | (true, S') => .cont S'
+        | (false, S') => .ret .err S')
+      else .ret .ok S)
+    (call : String → String → Stores → Res × Stores) (S : Stores) :
+    execBody C16Sem.helpers env auth W i.recv i.method call i.body S = updateStoreHandler known env.gov auth es S := by
+  rw [hb]
+  unfold updateStoreHandler
+  have hgs := guardCmp_sound C16Sem.helpers env auth g .strict hg
+  by_cases ha : auth = env.gov
+  · have hrel : relK env.cfg .strict env.gov auth = true := by simp [relK, ha]
+    rw [hrel] at hgs
+    rw [if_neg (by simp [ha])]
+    simp only [execBody, hgs, Bool.not_true, Bool.false_eq_true, ↓reduceIte, hW]
+    cases hr : runProg known C16Sem.updateStoreProg es S with
+    | mk ok S' =>
+      cases ok
+      · simp
+      · simp [Ne.symm hab]
+  · have hrel : relK env.cfg .strict env.gov auth = false := by
+      simp only [relK, beq_eq_false_iff_ne, ne_eq]; exact fun h => ha h.symm
+    simp [execBody, hgs, hrel, ha]
+
+/-- it succeeds iff at EVERY position the store space is known and the stated old value equals the value current there,
+i.e. after the writes of all earlier entries (same key twice included) -/
+theorem update_store_ok_iff (known : List String) (es : List Entry) (S : Stores) :
+    (runProg known C16Sem.updateStoreProg es S).1 = true ↔
+      ∀ (pre : List Entry) (e : Entry) (post : List Entry), es = pre ++ e :: post →
+        known.contains e.space = true ∧ sGet (writes pre S) e.sk = e.old := by
+  rw [update_store_prog_refines_cas]; exact casAll_ok_iff known es S
+
+/-- on success the stores are exactly the writes of all entries in order -/
+theorem update_store_ok_state (known : List String) (es : List Entry) (S : Stores)
+    (h : (runProg known C16Sem.updateStoreProg es S).1 = true) :
+    (runProg known C16Sem.updateStoreProg es S).2 = writes es S := by
+  rw [update_store_prog_refines_cas] at h ⊢; exact casAll_ok_state known es S h
+
+/-- on failure the handler's own context holds the writes of the entries before the first failing one (so the handler
+alone is NOT all-or-nothing; the enclosing branch is what makes it so) -/
+theorem update_store_err_partial (known : List String) (es : List Entry) (S : Stores)
+    (h : (runProg known C16Sem.updateStoreProg es S).1 = false) :
+    ∃ (pre : List Entry) (e : Entry) (post : List Entry), es = pre ++ e :: post ∧
+      (runProg known C16Sem.updateStoreProg es S).2 = writes pre S ∧
+      (known.contains e.space = false ∨ sGet (writes pre S) e.sk ≠ e.old) := by
+  rw [update_store_prog_refines_cas] at h ⊢
+  obtain ⟨pre, e, post, h1, h2, _, h4⟩ := casAll_err_state known es S h
+  exact ⟨pre, e, post, h1, h2, h4⟩
+
+/-- after a successful update every key holds the new value of the LAST entry naming it, every other key what it held -/
+theorem update_store_last_write_wins (known : List String) (es : List Entry) (S : Stores) (k : SKey)
+    (h : (runProg known C16Sem.updateStoreProg es S).1 = true) :
+    sGet (runProg known C16Sem.updateStoreProg es S).2 k =
+      match es.reverse.find? (fun e => decide (e.sk = k)) with
+      | some e => e.new
+      | none => sGet S k := by
+  rw [update_store_ok_state known es S h]; exact sGet_writes es S k
+
+/-- the same key twice: the second entry must state the FIRST entry's new value as its old value -/
+theorem update_store_same_key_twice (known : List String) (e1 e2 : Entry) (S : Stores) (hk : e2.sk = e1.sk)
+    (hs : known.contains e1.space = true) :
+    (runProg known C16Sem.updateStoreProg [e1, e2] S).1 = true ↔ sGet S e1.sk = e1.old ∧ e2.old = e1.new := by
+  rw [update_store_ok_iff]
+  have hs2 : known.contains e2.space = true := by
+    have : e2.space = e1.space := congrArg Prod.fst hk
+    rw [this]; exact hs
+  constructor
+  · intro h
+    have a := h [] e1 [e2] rfl
+    have b := h [e1] e2 [] rfl
+    refine ⟨by simpa [writes] using a.2, ?_⟩
+    have := b.2
+    simp only [writes, List.foldl_cons, List.foldl_nil, hk, sGet_sSet_same] at this
+    exact this.symm
+  · intro ⟨ha, hb⟩ pre e post hsplit
+    match pre, hsplit with
+    | [], hsplit =>
+      simp only [List.nil_append, List.cons.injEq] at hsplit
+      obtain ⟨rfl, _⟩ := hsplit
+      exact ⟨hs, by simpa [writes] using ha⟩
+    | [p], hsplit =>
+      simp only [List.cons_append, List.nil_append, List.cons.injEq] at hsplit
+      obtain ⟨rfl, rfl, _⟩ := hsplit
+      refine ⟨hs2, ?_⟩
+      simp only [writes, List.foldl_cons, List.foldl_nil, hk, sGet_sSet_same]
+      exact hb.symm
+    | p :: q :: rest, hsplit =>
+      simp only [List.cons_append, List.cons.injEq] at hsplit
+      obtain ⟨_, _, h3⟩ := hsplit
+      cases rest <;> simp at h3
+
+/-- message level (handler inside the branch): applied iff the authority is the keeper's authority and the whole list is
+compare-and-set consistent; otherwise NOTHING changes in any store -/
+theorem update_store_msg (known : List String) (gov auth : Str) (es : List Entry) (S : Stores) :
+    updateStoreMsg known gov auth es S =
+      if auth = gov ∧ (casAll known es S).1 = true then (.ok, writes es S) else (.err, S) := by
+  unfold updateStoreMsg viaCache updateStoreHandler
+  by_cases ha : auth = gov
+  · simp only [ha, ne_eq, not_true_eq_false, ↓reduceIte, true_and]
+    rw [update_store_prog_refines_cas]
+    cases hc : casAll known es S with
+    | mk b S' =>
+      cases b
+      · simp
+      · have := casAll_ok_state known es S (by rw [hc])
+        rw [hc] at this
+        simp [← this]
+  · simp [ha]
+
+/-- a wrong authority changes nothing even in the handler's own context -/
+theorem update_store_handler_unauthorized (known : List String) (gov auth : Str) (es : List Entry) (S : Stores)
+    (h : auth ≠ gov) : updateStoreHandler known gov auth es S = (.err, S) := by
+  simp [updateStoreHandler, h]
+
+/-- a proposal (several messages on one branch, written back only if all succeed) is all-or-nothing -/
+theorem proposal_atomic (fs : List (Stores → Res × Stores)) (S : Stores) (h : (runProposal fs S).1 = .err) :
+    (runProposal fs S).2 = S := viaCache_err _ S h
+
+/-- the end-blocker's execution of a passed proposal, AS REGENERATED from x/gov/abci.go (handlers on the cache context,
+`break` on the first error, `writeCache()` only under `err == nil`), is the all-or-nothing `runProposal` — for all
+message lists and stores -/
+theorem proposal_exec_is_atomic (fs : List (Stores → Res × Stores)) (S : Stores) :
+    runProposalWith C16Sem.proposalExec fs S = runProposal fs S := by
+  have hp : C16Sem.proposalExec = ⟨true, true, true⟩ := by decide
+  rw [hp]
+  unfold runProposalWith runProposal viaCache
+  simp only [loopMsgs_break fs S .ok rfl]
+  cases h : runMsgs fs S with
+  | mk r X => cases r <;> simp
+
+theorem proposal_ok_is_sequence (fs : List (Stores → Res × Stores)) (S : Stores) (h : (runProposal fs S).1 = .ok) :
+    runProposal fs S = runMsgs fs S := viaCache_ok _ S h
+
 -- non-vacuity: the table is non-empty and contains each shape the theorems speak about
 example : handlers.length ≥ 11 := by decide
 example : handlers.any (fun h => match h.shape with | .forward _ => true | _ => false) = true := by decide
 example : ∃ gov auth : List Char, lowerAscii gov ≠ lowerAscii auth := ⟨['a'], ['b'], by decide⟩
 example : updateStore ['g'] ['g'] [⟨true, [1], [], [7]⟩] [] = (.ok, [([1], [7])]) := by decide
+
+example : C16Sem.impls.length ≥ 11 := by decide
+example : protectedAt prog 4 "x/crosschain/keeper.msgServer" "UpdateParams" = some .strict := by decide
+example : protectedAt prog 4 "x/evm/keeper.Keeper" "CallContract" = some .fold := by decide
+example : (runProg ["erc20"] C16Sem.updateStoreProg [⟨"erc20", [1], [], [7]⟩, ⟨"erc20", [1], [7], [8]⟩] []).1 = true := by decide
+example : (runProg ["erc20"] C16Sem.updateStoreProg [⟨"erc20", [1], [], [7]⟩, ⟨"erc20", [1], [], [8]⟩] []) =
+    (false, [(("erc20", [1]), [7])]) := by decide
 
 end FxVerif.Props.C16
